@@ -58,11 +58,11 @@ PathVerdict(e, s) ==
        ELSE Excuse(e, "Inv_C07_Stack", {e.stack[i] : i \in {j \in 1..Len(e.stack) : Claim(e, e.stack[j]) # s.stack[j]}}))
       (* memory: every word the symbolic memory holds at a constant offset is the concrete word there, *)
       (* and every concrete word is present                                                            *)
-      \cup (IF /\ \A m \in ToSet(e.memory) : SmallVal(Claim(e, m[1])) >= 0 /\ Len(m[2]) > 0
-               /\ \A off \in DOMAIN s.mem : \E m \in ToSet(e.memory) : SmallVal(Claim(e, m[1])) = off
+      \cup (IF /\ \A m \in ToSet(e.memory) : Len(m[2]) > 0
+               /\ \A off \in DOMAIN s.mem : \E m \in ToSet(e.memory) : Claim(e, m[1]) = off
             THEN Excuse(e, "Inv_C07_Memory",
                         {m[2][Len(m[2])] : m \in {x \in ToSet(e.memory) :
-                                                    Claim(e, x[2][Len(x[2])]) # MemAt(s.mem, SmallVal(Claim(e, x[1])))}})
+                                                    Claim(e, x[2][Len(x[2])]) # MemAt(s.mem, Claim(e, x[1]))}})
             ELSE {"Inv_C07_Memory"})
       (* storage: per key, exactly the writes of this path, in order; one entry per key *word*: structurally *)
       (* different keys that denote one slot must not be kept apart                                          *)
